@@ -82,6 +82,8 @@ class Doc:
                 eid = self.start_tag(rng, name, anc, void=False)
                 if depth < 3:
                     self.gen_nodes(rng, anc + [(eid, name)], depth + 1, rng.randint(0, 3))
+                if getattr(self, "stop", False):
+                    return True  # a descendant was left open: no end tag may follow (it would close it implicitly)
                 if rng.random() < 0.93:
                     end = "</" + (name.upper() if rng.random() < 0.1 else name) + (" " if rng.random() < 0.1 else "") + ">"
                     self.toks.append(dict(kind="end", bytes=end.encode(), id=eid, anc=list(anc)))
@@ -265,7 +267,10 @@ class Scripts:
                     b = self.rng.choice([b"\xff", b"a\xc0b", b"\xed\xa0\x80"])
                     self.flags.add("sink-bad-utf8")
                 elif r < 0.3:
-                    b = "é".encode()[:1]  # incomplete sequence at the end: buffered, not an error
+                    # a sequence split over two calls: buffered, then completed (the sink keeps the
+                    # incomplete bytes across call-backs of one token, so it is always completed here)
+                    ops.append("bf 71 %d %s" % (self.rng.random() < 0.5, hx("aé".encode()[:2])))
+                    b = "é".encode()[1:] + b"z"
                 else:
                     b = self.rng.choice(CONTENT).encode()
                 ops.append("bf 71 %d %s" % (self.rng.random() < 0.5, hx(b)))
@@ -306,16 +311,16 @@ class Scripts:
                 elif r < 0.56:
                     ops.append("in 7 0 1 %s" % self.arg(ATTRS + GOOD_NAMES, BAD_ATTR_NAMES))
                 elif r < 0.68:
-                    fs = [8, 9, 10, 11] if has_prepend_stream else [8, 9, 10, 11, 12, 13]
+                    fs = [8, 9, 10, 11, 12, 13]
                     self.common_content(ops, fs)
-                elif r < 0.72 and not has_prepend_stream:
+                elif r < 0.72:
                     ops.append("vo %d" % rng.choice([14, 15, 20]))
                 elif r < 0.8:
                     ops.append("bg %d" % rng.choice([16, 17, 18]))
                 elif r < 0.84:
                     ops.append("rg %d" % rng.choice([3, 19, 21]))
                 elif r < 0.9:
-                    f = rng.choice([10, 10, 8])
+                    f = rng.choice([10, 10, 8, 12, 13])
                     if f == 8:
                         has_prepend_stream = True
                     ops.append("st %d %s" % (f, self.sarg()))
